@@ -294,7 +294,19 @@ def rand_mef(rng, node_mode=False, max_edges=6):
         kw["additional_ends"] = [v for v in nodes if rng.random() < 0.3]
     if rng.random() < 0.3:
         kw["few_flow_values_epsilon"] = rng.choice([0.5, 0.25, 1.0, 0, 2.0])
-    return kw, dict(acyclic=acyclic, is_int=is_int, scale=scale, missing=missing)
+    # decoy values: the weights live on the nodes (node mode) or on the edges (edge mode) only; the OTHER kind of element may carry an
+    # attribute of the same name (NodeExpandedDiGraph copies edge data onto the connecting edges) - it must not influence anything
+    decoy = False
+    if rng.random() < 0.3:
+        decoy = True
+        dv = lambda: (rng.choice([0, 1, 5, 6]) if is_int else float(rng.choice([0, 1, 5, 6]) * scale))
+        if node_mode:
+            for e in G.edges():
+                if rng.random() < 0.6: G.edges[e]["flow"] = dv()
+        else:
+            for v in G.nodes():
+                if rng.random() < 0.6: G.nodes[v]["flow"] = dv()
+    return kw, dict(acyclic=acyclic, is_int=is_int, scale=scale, missing=missing, decoy=decoy)
 # ---------------------------------------------------------------------------------------------
 # error models (C07 kLeastAbsErrors, C08 kMinPathError): arbitrary non-negative weights + options
 def rand_err_args(rng, kind, nmax=None, tiny=False, force_int=None):
